@@ -8,9 +8,9 @@ BUILD = os.path.join(VERIF, ".build")
 LEAN = os.path.join(VERIF, "lean")
 HARNESS = os.path.join(VERIF, "harness")
 TARGET = os.path.join(BUILD, "target")
-PLSV_BIN = os.path.join(TARGET, "debug", "plsv")
+PLSV_BIN = os.environ.get("PLSV_BIN_OVERRIDE") or os.path.join(TARGET, "debug", "plsv")   # override: coverage-instrumented build (maintenance)
 DRIVER_BIN = os.path.join(LEAN, ".lake", "build", "bin", "plsdriver")
-SERVER_BIN = os.path.join(TARGET, "debug", "pytest-language-server")
+SERVER_BIN = os.environ.get("PLSV_SERVER_OVERRIDE") or os.path.join(TARGET, "debug", "pytest-language-server")
 ALLOWED_AXIOMS = {"propext", "Classical.choice", "Quot.sound"}
 TRUSTED_BASE = [
     "Lean 4.33 kernel; axioms limited to propext, Classical.choice, Quot.sound (audited per theorem with #print axioms)",
@@ -209,7 +209,7 @@ def parse_answers(out):
 
 
 def strip_order(a):
-    if a and (a.startswith("ok order=") or a.startswith("ok parsed=")):
+    if a and (a.startswith("ok order=") or a.startswith("ok parsed=") or a.startswith("ok evicted=")):
         return "ok"
     return a
 
